@@ -111,15 +111,63 @@ def run(pid, tier, seed):
                     meta[iid] = (blob, B, seq, label)
         chunks = [insts[i::8] for i in range(8)]
 
-        def runchunk(chunk):
+        def runchunk(ic):
+            ci, chunk = ic
             inp = "\n".join(json.dumps(x) for x in chunk) + "\n"
-            p = subprocess.run([exe], input=inp.encode(), stdout=subprocess.PIPE, stderr=subprocess.PIPE, timeout=3000)
-            return [json.loads(l) for l in p.stdout.decode().splitlines() if l.strip()]
+            env = dict(os.environ)
+            tpath = os.path.join(sc, "blk-trace-%d.ndjson" % ci)
+            env["S4_VERIF_TRACE"] = tpath
+            p = subprocess.run([exe], input=inp.encode(), stdout=subprocess.PIPE, stderr=subprocess.PIPE, timeout=3000, env=env)
+            evs = [json.loads(l) for l in open(tpath)] if os.path.exists(tpath) else []
+            return [json.loads(l) for l in p.stdout.decode().splitlines() if l.strip()], evs
 
         t0 = time.time()
         with ThreadPoolExecutor(max_workers=8) as ex:
-            outs = [o for res in ex.map(runchunk, chunks) for o in res]
+            res_ = list(ex.map(runchunk, list(enumerate(chunks))))
+        outs = [o for r_ in res_ for o in r_[0]]
         log("C05: %d block instances in %.1fs" % (len(outs), time.time() - t0))
+        # I->S: the ReadBlock / Store / DropBlock events of every instance against TraceStream.tla
+        trecs = []
+        ninst = 0
+        for _, evs in res_:
+            cur = None
+            for e in evs:
+                if e["ev"] == "Instance":
+                    cur = e["id"]
+                    blob_, B_, seq_, label_ = meta[cur]
+                    if len(trecs) < (6000 if tier == "quick" else 60000):
+                        trecs.append({"ev": "Reset", "filesz": len(blob_), "B": B_})
+                        ninst += 1
+                    else:
+                        cur = None
+                elif cur is not None and e["ev"] in ("ReadBlock", "Store", "DropBlock"):
+                    trecs.append({k: e[k] for k in e if k not in ("seq", "t")})
+        traces_ok = 0
+        if trecs:
+            tdir = os.path.join(sc, "tvs")
+            os.makedirs(tdir)
+            tp = os.path.join(tdir, "blocks.ndjson")
+            with open(tp, "w") as f:
+                for r_ in trecs:
+                    f.write(json.dumps(r_) + "\n")
+            cfgp = write_cfg(tp + ".cfg", {}, spec="Spec", constraint="Progress", postcondition="Accepted")
+            tr = tlc("TraceStream", cfgp, tdir, workers=1, timeout=1200, env={"TRACE": tp}, deque=True, java_opts="-Xmx4g")
+            if tr.ok:
+                traces_ok = ninst
+            elif tr.violated == "postcondition":
+                import re as _re
+                m = _re.search(r'"UNMATCHED",\s*(\d+)', tr.output)
+                at = int(m.group(1)) if m else None
+                evx = trecs[at - 1] if at and at <= len(trecs) else None
+                # which discipline is broken decides: a wrong block length / double store / re-read of a dropped block is the
+                # property itself (bytes would be lost or wrong); anything else is a changed shape
+                if evx and evx.get("ev") in ("Store", "ReadBlock"):
+                    rep.violation("trace:blocks:%s" % evx["ev"], "BlockReader event not allowed by TraceStream.tla: %s" % evx,
+                                  {"kind": "blocktrace", "event": evx, "index": at})
+                else:
+                    rep.note_drift("block trace not explained by TraceStream.tla at %s: %s" % (at, evx))
+            else:
+                common.tlc_must_pass(tr, "TraceStream")
         nblocks = 0
         for o in outs:
             blob, B, seq, label = meta[o["id"]]
@@ -225,7 +273,7 @@ def run(pid, tier, seed):
             if b.crashed or a.out != b.out or not a.out:
                 rep.violation("differs:%s" % label, "%s: compressed form prints %d bytes, plain %d bytes" % (label, len(b.out), len(a.out)),
                               {"kind": "shipped", "plain": plain_rel, "form": form_rel, "opts": opts, "rc": b.rc})
-        rep.coverage = {"states": states, "transitions": trans, "traces_validated_against_impl": len(outs),
+        rep.coverage = {"states": states, "transitions": trans, "traces_validated_against_impl": traces_ok,
                         "evaluations": nblocks + len(runs) + len(shipped), "distinct_nontrivial": nontriv + len([o for o in outs if len(meta[o["id"]][0]) > meta[o["id"]][1]]),
                         "rule": "in-process: one evaluation = one read_block call on a real container compared with the plain slice; "
                                 "e2e: one (plain, stored form) pair of runs; non-trivial = content larger than one block",
